@@ -61,7 +61,13 @@ def cases(tier, seed):
                     yield {"mode": "lines", "shape": list(shp),
                            "assign": list(assign), "nan": nanp,
                            "ctypes": [(j + i) % 2 for i in range(k)],
-                           "join": j % 4 == 0, "order": j % 5 == 0,
+                           "join": j % 4 == 0,
+                           # explicit order: 1 = all values reversed, 2 = a
+                           # reordered selection of them
+                           "order": (1 + (j // 5) % 2) if j % 5 == 0 else 0,
+                           # the order the variable's dimensions are stored
+                           # in (vs. the dataset's own dimension order)
+                           "stored": (j // 3) % 3,
                            "unmapped": j % 7 == 0 and k >= 2}
     # fused dimensions
     for p, nanp in itertools.product(("color", "marker", "linestyle", "row"),
@@ -182,6 +188,12 @@ def check_lines(case):
     k = len(shape)
     nan_dim = 0
     ds, dims = make_ds(shape, case["ctypes"], case["nan"], nan_dim)
+    stored = case.get("stored", 0)
+    if stored == 1:
+        # variable stored as (..., d1, d0, x); the dataset lists d0, d1, ...
+        ds = ds["y"].transpose(*(dims[::-1] + ["x"])).to_dataset(name="y")
+    elif stored == 2:
+        ds["y"] = ds["y"].transpose(*(["x"] + dims[1:] + dims[:1]))
     before = ds.copy(deep=True)
     vio = []
 
@@ -198,6 +210,8 @@ def check_lines(case):
         d0 = dims[0]
         if d0 in mapping:
             vals = ds[d0].values.tolist()[::-1]
+            if case["order"] == 2:
+                vals = vals[:1] + vals[2:] if len(vals) > 2 else vals[:1]
             kw[mapping[d0] + "_order"] = vals
             orders[d0] = vals
     if case["join"]:
@@ -207,7 +221,7 @@ def check_lines(case):
         return fin(case, [err])
     if not ds.identical(before):
         vio.append((key("dataset-modified"), "plotting changed the dataset"))
-    yv = before["y"].values
+    yv = before["y"].transpose(*(dims + ["x"])).values
     # which coordinates of a *mapped* dimension survive dropna(how='all')
     alive = {}
     for i, d in enumerate(dims):
